@@ -17,8 +17,8 @@ TRUSTED = [
     'harness/gittie.py: the rules of Model/Git + Flow.applyOp exercised directly against bert_e/lib/git.py and '
     'git_utils (robust_merge, push) on real git: seeded scripts, every step compared',
     'harness/fullsys.py: the closed model Model/Full.lean (composition of Eval, Select, QValidate guards, Admin, Flow) '
-    'predicts whole histories from webhook-level events; its queue-evaluation guard asks Select.Validated in addition '
-    'to the modelled validate() - that the former follows from the latter is checked on every queue evaluation of the tie',
+    'predicts whole histories from webhook-level events; the guard of its queue evaluations is the modelled validate() '
+    'alone (Select.Validated is a consequence of the invariant FullInv, proved preserved by every event: C01_full_step)',
     'harness/histories.py (history generator, translation of executed events into model events: the stage the '
     'gates allowed and the queue selection are read from the real run), harness/system.py (mock git host, real git)',
 ]
